@@ -162,7 +162,13 @@ def ground_axioms(exprs, extra_rounds=1):
     return ax
 
 
-def _purified_check(cons, ax, timeout_s):
+_PORTFOLIO = [
+    ("nlsat", lambda ctx=None: z3.Then(z3.Tactic("simplify", ctx=ctx), z3.Tactic("purify-arith", ctx=ctx), z3.Tactic("elim-term-ite", ctx=ctx), z3.Tactic("qfnra-nlsat", ctx=ctx), ctx=ctx)),
+    ("ite-elim-smt", lambda ctx=None: z3.Then(z3.Tactic("simplify", ctx=ctx), z3.Tactic("elim-term-ite", ctx=ctx), z3.Tactic("smt", ctx=ctx), ctx=ctx)),
+]
+
+
+def _purified_check(cons, ax, timeout_s, mk=None):
     """Replace every UF application by a fresh real constant (keeping the ground axioms, which
     include congruence), leaving pure QF_NRA for nlsat.  unsat is sound; sat/unknown are not used."""
     allc = list(cons) + list(ax)
@@ -182,11 +188,11 @@ def _purified_check(cons, ax, timeout_s):
         # t may itself contain already-substituted inner apps only if processed later; handle by re-substituting t
         cur = [z3.substitute(c, (t, fresh)) for c in cur]
         terms[k + 1:] = [tt for tt in terms[k + 1:]]
-    tac = z3.Then("simplify", "purify-arith", "elim-term-ite", "solve-eqs", "qfnra-nlsat") if False else None
-    s2 = z3.Solver()
+    ctx2 = z3.Context()
+    s2 = mk(ctx2).solver() if mk is not None else z3.Solver(ctx=ctx2)
     s2.set("timeout", int(1000 * timeout_s))
     for c in cur:
-        s2.add(c)
+        s2.add(c.translate(ctx2))
     return s2.check(), s2
 
 
@@ -210,14 +216,19 @@ class Session:
         ax = ground_axioms(list(cons) + list(axioms_from or []))
         full_t = timeout_s or self.timeout_s
         has_uf = bool(ax)
-        first_t = min(full_t, 4.0) if (purify and has_uf) else full_t
+        first_t = min(full_t, 4.0)
 
-        def run(t):
-            s_ = self._solver(t)
+        def run(t, seed=0):
+            # fresh context per query: the verdict does not depend on what was solved before
+            ctx = z3.Context()
+            s_ = z3.Solver(ctx=ctx)
+            s_.set("timeout", int(1000 * t))
+            if seed:
+                s_.set("random_seed", seed)
             for c in cons:
-                s_.add(c)
+                s_.add(c.translate(ctx))
             for a in ax:
-                s_.add(a)
+                s_.add(a.translate(ctx))
             return s_.check(), s_
         t0 = time.time()
         if any(z3.is_false(c) for c in cons):
@@ -225,14 +236,33 @@ class Session:
         else:
             r, s = run(first_t)
         verdict = str(r)
-        if verdict == "unknown" and purify and has_uf:
-            r2, s2 = _purified_check(cons, ax, full_t)
-            if str(r2) == "unsat":  # sound: purification only forgets facts about the UFs beyond the axioms
-                verdict, s = "unsat", s2
-                kind = kind + ":purified-nlsat"
-            elif first_t < full_t:
-                r, s = run(full_t)
-                verdict = str(r)
+        if verdict == "unknown":
+            # portfolio: ite-elimination + nlsat / smt pipelines (pure NRA after purification of UFs)
+            for label, mk in _PORTFOLIO:
+                if has_uf and purify:
+                    r2, s2 = _purified_check(cons, ax, full_t, mk)
+                    if str(r2) == "unsat":  # sound: purification only forgets facts about the UFs beyond the axioms
+                        verdict, s = "unsat", s2
+                        kind = kind + f":purified+{label}"
+                        break
+                elif not has_uf:
+                    ctx2 = z3.Context()
+                    s2 = mk(ctx2).solver()
+                    s2.set("timeout", int(1000 * full_t))
+                    for c in cons:
+                        s2.add(c.translate(ctx2))
+                    r2 = s2.check()
+                    if str(r2) in ("unsat", "sat"):
+                        verdict, s = str(r2), s2
+                        kind = kind + f":{label}"
+                        break
+            if verdict == "unknown":
+                for sd in (7, 23):
+                    r, s = run(full_t, sd)
+                    verdict = str(r)
+                    if verdict != "unknown":
+                        kind = kind + f":seed{sd}"
+                        break
         dt = time.time() - t0
         self.solver_s += dt
         model = s.model() if verdict == "sat" else None
@@ -312,6 +342,8 @@ def model_value(model, term):
     """Concrete python value (Fraction/int/bool) of a term under a model (with completion)."""
     if not isinstance(term, z3.ExprRef):
         return term
+    if term.ctx != model.ctx:
+        term = term.translate(model.ctx)
     v = model.eval(term, model_completion=True)
     if z3.is_true(v):
         return True
